@@ -190,7 +190,8 @@ def gen_op(rng, pools, ctx=None, faults=True, kinds=None):
                 "attr": gen_attr(rng), "fault": fault}
     if k == "admin_reserve":
         return {"op": k, "ip": rng.choice(["@u%d" % rng.randrange(6)] * 4 + ["@a0", "10.55.0.1"]),
-                "key": rng.choice(KEYS + ["reserved-by-admin"]), "policy": rng.choice([0, 2])}
+                # (only the label makes an object a reservation: its key may be anything, also empty)
+                "key": rng.choice(KEYS + ["reserved-by-admin", "", ""]), "policy": rng.choice([0, 2])}
     if k == "admin_unreserve":
         return {"op": k, "ip": "@a%d" % rng.randrange(6)}
     if k == "watch_deliver":
